@@ -26,7 +26,7 @@
 (* mechanism each; TLC must then find a violation (the invariants have     *)
 (* teeth): "nopull", "nopush", "noclamp", "norearm".                       *)
 (***************************************************************************)
-EXTENDS Integers, Sequences, FiniteSets, TLC
+EXTENDS Integers, Sequences, FiniteSets, TLC, SlotRules
 
 CONSTANTS Depth, NN, NestAt, MaxT, Dts, MaxTg, Fault
 
@@ -70,11 +70,15 @@ Sched(st, g, n, when0) ==
              s2   == IF idle /\ when < s1.nxt[g] THEN [s1 EXCEPT !.nxt[g] = when] ELSE s1
          IN IF idle /\ Fault # "nopush" /\ ~s2.err THEN Sched(s2, g - 1, NestAt, when) ELSE s2
 
-RECURSIVE SchedAll(_, _, _)
-SchedAll(st, targets, when) ==     \* targets: a set of <<g, n>>
+\* notifications: targets is a set of <<g, n>>.  A notification normally carries the notifier's current time; a
+\* cross-boundary one may carry the idle child's own, older clock (a reference re-bound to an older target samples it
+\* at the child's last evaluation time) - `stale` - which nested_schedule_node_impl clamps to the parent's time.
+RECURSIVE SchedAll(_, _, _, _)
+SchedAll(st, targets, when, stale) ==
     IF targets = {} THEN st
     ELSE LET x == CHOOSE y \in targets : TRUE
-         IN SchedAll(Sched(st, x[1], x[2], when), targets \ {x}, when)
+             w == IF stale /\ ~evaluating[x[1]] /\ et[x[1]] < when THEN et[x[1]] ELSE when
+         IN SchedAll(Sched(st, x[1], x[2], w), targets \ {x}, when, stale)
 
 Tables == [slot |-> slot, nxt |-> nxt, err |-> err]
 Commit(st) == slot' = st.slot /\ nxt' = st.nxt /\ err' = st.err
@@ -129,7 +133,7 @@ Below(g) == IF g >= Depth - 1 THEN {} ELSE {<<g + 1, m>> : m \in Nodes} \cup Bel
 Downstream(g, n) == {<<g, m>> : m \in {x \in Nodes : x > n}} \cup (IF g < Depth - 1 /\ NestAt > n THEN Below(g) ELSE {})
 
 \* node.cpp evaluate_impl: user code (may request one more timer, may tick its output), then advance / re-arm
-EvalPlain(req, targets) ==
+EvalPlain(req, targets, stale) ==
     /\ stack # <<>> /\ ~err
     /\ LET g == Top  n == cursor[g]  T == et[g] IN
        /\ n <= NN /\ slot[g][n] = T /\ ~IsNestNode(g, n)
@@ -143,7 +147,7 @@ EvalPlain(req, targets) ==
               w2    == IF fired THEN w1 \ {T} ELSE w1
               s2    == IF fired THEN (IF w2 # {} THEN Sched(s1, g, n, MinOf(w2)) ELSE s1)
                        ELSE IF w2 # {} /\ Fault # "norearm" THEN Sched(s1, g, n, MinOf(w2)) ELSE s1
-              s3    == SchedAll(s2, targets, T)
+              s3    == SchedAll(s2, targets, T, stale)
           IN /\ want' = [want EXCEPT ![g][n] = w2]
              /\ Commit(s3)
              /\ must' = must \cup targets
@@ -178,7 +182,7 @@ FinishGraph(targets) ==
                /\ UNCHANGED <<slot, nxt, err, must>>
           ELSE /\ targets \subseteq {<<g - 1, m>> : m \in {x \in Nodes : x > NestAt}} /\ Cardinality(targets) <= 1
                /\ LET s1 == IF nxt[g] < Inf /\ Fault # "nopull" THEN Sched(Tables, g - 1, NestAt, nxt[g]) ELSE Tables
-                      s2 == SchedAll(s1, targets, et[g - 1])
+                      s2 == SchedAll(s1, targets, et[g - 1], FALSE)
                   IN Commit(s2)
                /\ must' = must \cup targets
                /\ stack' = SubSeq(stack, 1, Len(stack) - 1)
@@ -189,7 +193,7 @@ FinishGraph(targets) ==
 UpTo2(S) == {{}} \cup {{x} : x \in S} \cup (IF MaxTg >= 2 THEN {{x, y} : x \in S, y \in S} ELSE {})
 Next == \/ \E g \in Graphs, n \in Nodes, t \in 1..2 : StartArm(g, n, t)
         \/ Go \/ BeginCycle \/ SkipNode \/ EvalNest
-        \/ \E req \in {{}} \cup {{t} : t \in 1..(MaxT + 2)}, tg \in UpTo2(Graphs \X Nodes) : EvalPlain(req, tg)
+        \/ \E req \in {{}} \cup {{t} : t \in 1..(MaxT + 2)}, tg \in UpTo2(Graphs \X Nodes), stale \in BOOLEAN : EvalPlain(req, tg, stale)
         \/ \E tg \in UpTo2(Graphs \X Nodes) : FinishGraph(tg)
 
 Spec == Init /\ [][Next]_vars
@@ -197,16 +201,8 @@ Spec == Init /\ [][Next]_vars
 ----------------------------------------------------------------------------
 Idle == phase = "run" /\ stack = <<>>
 
-\* The schedule-table rule itself, as a predicate over a dumped state (also evaluated by SlotTrace.tla on the
-\* tables recorded from the real engine): every pending entry of a nested graph is covered by a pending entry of
-\* its parent node that is not later; every pending entry of the root by the root's cached next time.
-CoveredIn(T, gs) ==
-    \* gs: a set of records [g, pg, pn, next, s] (s = sequence of entries); T = time of the finished root cycle
-    \A x \in gs : \A i \in 1..Len(x.s) :
-        x.s[i] > T =>
-            IF x.pg < 0 THEN x.next <= x.s[i]
-            ELSE \E p \in gs : p.g = x.pg /\ p.s[x.pn + 1] > T /\ p.s[x.pn + 1] <= x.s[i]
-
+\* The schedule-table rule itself lives in SlotRules.tla (shared with SlotTrace.tla, which evaluates it on the tables
+\* recorded from the real engine).
 Dump == {[g |-> g, pg |-> g - 1, pn |-> NestAt - 1, next |-> nxt[g], s |-> [i \in Nodes |-> slot[g][i]]] : g \in Graphs}
 
 Covered == Idle => CoveredIn(now, Dump)
